@@ -10,7 +10,7 @@
    [strace ops p] = (raised?, reference state) after each operation. *)
 From Coq Require Import List ZArith NArith Bool Arith.
 Import ListNotations.
-From SAV.engine Require Import RefDb Txn TxnBase TxnWF TxnSpec TxnSim TxnTheorems.
+From SAV.engine Require Import RefDb RefDbProofs Txn TxnBase TxnWF TxnSpec TxnSim TxnTheorems.
 
 (* ---------- every history, misuse included ---------- *)
 
@@ -107,6 +107,28 @@ Theorem c23_committed_data_eq_reference_refuted :
   map (fun bp => p_committed (snd bp)) (strace witness_c (spec_init [])).
 Proof. exact refuted_data_c. Qed.
 Print Assumptions c23_committed_data_eq_reference_refuted.
+
+(* ---------- the reference database itself (validated against SQLite on every run) ---------- *)
+
+(* a savepoint rollback undoes exactly the work since that savepoint (and keeps the savepoint) *)
+Theorem c23_refdb_savepoint_rollback_to : forall d n w',
+  exec_cmd (mkDb (committed d) w' ((n, work d) :: saves d)) (RollbackTo n) =
+  Some (mkDb (committed d) (work d) ((n, work d) :: saves d)).
+Proof. exact savepoint_rollback_to. Qed.
+Print Assumptions c23_refdb_savepoint_rollback_to.
+
+(* ROLLBACK TO / RELEASE are rejected exactly for a savepoint the database does not have *)
+Theorem c23_refdb_rejects_unknown_savepoint : forall d n,
+  (exec_cmd d (RollbackTo n) = None <-> has_save n d = false) /\
+  (exec_cmd d (Release n) = None <-> has_save n d = false).
+Proof. intros d n. exact (conj (rollback_to_rejected_iff d n) (release_rejected_iff d n)). Qed.
+Print Assumptions c23_refdb_rejects_unknown_savepoint.
+
+(* other connections see a change only through COMMIT *)
+Theorem c23_refdb_visible_changes_only_by_commit : forall d c d',
+  exec_cmd d c = Some d' -> c <> Commit -> committed d' = committed d.
+Proof. exact committed_changes_only_by_commit. Qed.
+Print Assumptions c23_refdb_visible_changes_only_by_commit.
 
 (* ---------- non-vacuity ---------- *)
 (* a guarded history with two savepoint levels, a savepoint rollback, a release, double commit and a
